@@ -24,6 +24,7 @@ RULE = (
     'stokes, nside, frequencies, structure and the results of world2index / full. '
     'non-trivial = a composite, or a class with >= 1 static and >= 1 array field.'
     ' Also: the dense form (where a hand-written one takes part) is compared across the round trip and, for block operators, under jit; block containers written as dicts in any key order; selections with structured index values (ranges, almost-ranges, sorted, constant, reversed, negative).'
+    ' Also: selections by runs of 64-200 consecutive indices, also wrapping past zero.'
 )
 ASSUMPTIONS = [
     'passing a landscape as a jit argument is not claimed by the property (executed and recorded only)',
